@@ -156,6 +156,8 @@ pub struct RunStats {
     pub tls_inits: u64,
     pub tls_reuse: u64,
     pub steps: u64,
+    /// every simulated file read of the run: (path, delivered bytes or error text)
+    pub disk_log: Vec<(String, Result<Vec<u8>, String>)>,
 }
 
 struct Ctx {
@@ -215,7 +217,10 @@ pub fn begin_run(cfg: RunCfg, disk: fs::Disk) {
 }
 
 pub fn end_run() -> Option<RunStats> {
-    CTX.with(|c| c.borrow_mut().take().map(|c| c.stats))
+    CTX.with(|c| c.borrow_mut().take().map(|mut c| {
+        c.stats.disk_log = std::mem::take(&mut c.disk.log);
+        c.stats
+    }))
 }
 
 pub fn is_active() -> bool {
